@@ -32,7 +32,7 @@ type ifaceWorker struct {
 	shared     *genesis
 	bufA, bufR []byte
 	enabledBuf []Op
-	memo       map[string]memoRes
+	memo       map[memoKey]memoRes
 }
 
 // privateGenesis: own chain state, shared reference database (renewed now and then to bound its growth).
@@ -100,6 +100,8 @@ func (w *ifaceWorker) exec(ops []Op, checkAll bool, allowEndBlock bool) execResu
 // legal reports whether op is enabled now (same rules as enabled).
 func (x *ifaceRun) legal(op Op, private bool) bool {
 	switch op.K {
+	case opCreateAccount:
+		return x.creatable(ifaceAddrs[op.A])
 	case opSubBalance:
 		return x.r.sdb.GetBalance(ifaceAddrs[op.A]).Int64() >= int64(op.V) && x.r.sdb.GetBalance(ifaceAddrs[op.A]).Sign() >= 0
 	case opSubRefund:
@@ -113,61 +115,138 @@ func (x *ifaceRun) legal(op Op, private bool) bool {
 }
 
 // firstDivergence runs ops with a comparison after every step and returns (illegal, step of the first
-// disagreement or -1). Results for short sequences are memoised per worker: the minimiser asks for the same
-// short candidates again and again.
+// disagreement or -1, rank of the first differing getter). Results for short sequences are memoised per
+// worker: the minimiser asks for the same short candidates again and again.
 type memoRes struct {
 	illegal bool
 	step    int16
+	getter  int16
 }
 
-func seqKey(ops []Op) string {
-	b := make([]byte, 0, 4*len(ops))
-	for _, o := range ops {
-		b = append(b, byte(o.K), byte(o.A), byte(o.S), byte(o.V))
+// memoKey is pointer-free so that the garbage collector does not scan the memo tables.
+type memoKey [21]byte
+
+func seqKey(ops []Op) (k memoKey) {
+	k[0] = byte(len(ops))
+	for i, o := range ops {
+		k[1+4*i], k[2+4*i], k[3+4*i], k[4+4*i] = byte(o.K), byte(o.A), byte(o.S), byte(o.V)
 	}
-	return string(b)
+	return
 }
 
 func (w *ifaceWorker) firstDivergence(ops []Op) memoRes {
-	memoise := len(ops) <= 4
-	var k string
+	memoise := len(ops) <= 5
+	var k memoKey
 	if memoise {
 		k = seqKey(ops)
 		if m, ok := w.memo[k]; ok {
 			return m
 		}
 	}
-	r := w.exec(ops, true, true)
+	// cheap test first: a candidate on which the back-ends agree after the last step counts as agreeing
+	// (a disagreement that heals before the end is not used for minimisation)
+	r := w.exec(ops, false, true)
 	m := memoRes{illegal: r.illegal, step: -1}
 	if !r.illegal && r.diffs != nil {
+		if len(ops) > 1 {
+			r = w.exec(ops, true, true)
+		}
 		m.step = int16(r.step)
+		m.getter = int16(getterRank(r.diffs[0].Getter))
 	}
 	if memoise {
-		if w.memo == nil || len(w.memo) > 400000 {
-			w.memo = map[string]memoRes{}
+		if w.memo == nil || len(w.memo) > 600000 {
+			w.memo = map[memoKey]memoRes{}
 		}
 		w.memo[k] = m
 	}
 	return m
 }
 
-// minimise removes operations greedily (left to right, to a fixpoint) while the remaining sequence is legal
-// and the back-ends still disagree somewhere; what follows the first disagreement is dropped. The result is
-// a deterministic function of the input sequence. RevertToSnapshot positions are kept as they are; a removal
-// that makes one dangle is simply illegal.
+func opLess(a, b Op) bool {
+	if a.K != b.K {
+		return a.K < b.K
+	}
+	if a.A != b.A {
+		return a.A < b.A
+	}
+	if a.S != b.S {
+		return a.S < b.S
+	}
+	return a.V < b.V
+}
+
+// canonicalOps: every operation instance in canonical order (kind, address, slot, value).
+var canonicalOps = func() []Op {
+	ops := append([]Op(nil), alphabet("full")...)
+	for i := int8(0); i < 8; i++ {
+		ops = append(ops, Op{K: opRevertToSnapshot, V: i})
+	}
+	sort.Slice(ops, func(i, j int) bool { return opLess(ops[i], ops[j]) })
+	return ops
+}()
+
+// minimise brings a diverging sequence into a canonical small form, as a deterministic function of the
+// input sequence:
+//  1. removal: operations are removed greedily (left to right, to a fixpoint) while the rest is legal and the
+//     back-ends still disagree somewhere; what follows the first disagreement is dropped;
+//  2. replacement: left to right, an operation is replaced by the first operation instance that precedes it in
+//     canonical order (so EndBlock -> NextTx -> Finalise, SetNonce -> AddBalance, ...) for which the sequence
+//     still diverges with the same first differing getter; then back to 1.
+//
+// RevertToSnapshot positions are kept as they are; a change that makes one dangle is simply illegal.
 func (w *ifaceWorker) minimise(ops []Op) ([]Op, execResult) {
 	cur := append([]Op(nil), ops...)
-	for changed := true; changed; {
-		changed = false
-		for i := 0; i < len(cur); i++ {
-			cand := append(append([]Op(nil), cur[:i]...), cur[i+1:]...)
-			m := w.firstDivergence(cand)
-			if m.illegal || m.step < 0 {
-				continue
+	removal := func() {
+		for changed := true; changed; {
+			changed = false
+			for i := 0; i < len(cur); i++ {
+				cand := append(append([]Op(nil), cur[:i]...), cur[i+1:]...)
+				m := w.firstDivergence(cand)
+				if m.illegal || m.step < 0 {
+					continue
+				}
+				cur, changed = cand[:m.step], true
+				i--
 			}
-			cur, changed = cand[:m.step], true
-			i--
 		}
+	}
+	// shortest diverging suffix first (every proper prefix of a reported sequence agrees, so the last
+	// operation is always needed; most minimal forms are a suffix or a subsequence of a short suffix)
+	for k := 1; k < len(cur); k++ {
+		suffix := cur[len(cur)-k:]
+		if m := w.firstDivergence(suffix); !m.illegal && m.step >= 0 {
+			cur = append([]Op(nil), suffix[:m.step]...)
+			break
+		}
+	}
+	removal()
+	for rounds := 0; rounds < 64; rounds++ {
+		base := w.firstDivergence(cur)
+		if base.illegal || base.step < 0 {
+			break // cannot happen: cur diverges
+		}
+		replaced := false
+	positions:
+		for i := range cur {
+			for _, c := range canonicalOps {
+				if !opLess(c, cur[i]) {
+					break
+				}
+				cand := append([]Op(nil), cur...)
+				cand[i] = c
+				m := w.firstDivergence(cand)
+				if m.illegal || m.step < 0 || m.getter != base.getter {
+					continue
+				}
+				cur, replaced = cand[:m.step], true
+				break positions
+			}
+		}
+		if !replaced {
+			break
+		}
+		removal()
 	}
 	return cur, w.exec(cur, true, true)
 }
